@@ -26,7 +26,7 @@ var R = hx.NewRecorder("C19", "cases = (source bytes, block size, scripted sourc
 	"P7BlockEnc == CBC(ref/rsm4 or crypto/des) over my own padded plaintext, P7BlockDecrypt inverts; non-trivial = length >= 1 and at least one short/split read or write; distinct by hash of (source, plan)")
 
 func TestMain(m *testing.M) {
-	R.Require("short_nonEOF", "data_with_EOF", "zero_read", "write>1024", "len%bs==0", "bad_pad:zero", "bad_pad:toolarge", "bad_pad:inconsistent", "bad_pad:partial_block", "bad_pad:empty", "bs=8", "bs=16", "source_error")
+	R.Require("short_nonEOF", "data_with_EOF", "zero_read", "write>1024", "len%bs==0", "bad_pad:zero", "bad_pad:toolarge", "bad_pad:inconsistent", "bad_pad:partial_block", "bad_pad:empty", "bad_pad:ct_partial_tail", "bad_pad:ct_cut_midblock", "bs=8", "bs=16", "source_error")
 	hx.Main(m, R)
 }
 
@@ -392,6 +392,18 @@ func TestC19_BlockHelpers(t *testing.T) {
 			bp := k.mut(append([]byte{}, padded...), alg.bs)
 			stream = make([]byte, len(bp))
 			alg.ref(key, iv).CryptBlocks(stream, bp)
+		}
+		if bad == "" && rapid.IntRange(0, 5).Draw(t, "tail") == 0 {
+			// the ciphertext stream does not end on a block boundary: 1..bs-1 bytes too many, or as many too few - its final
+			// block is incomplete and cannot be a valid pad
+			k := rapid.IntRange(1, alg.bs-1).Draw(t, "tailbytes")
+			if rapid.Bool().Draw(t, "tailextra") {
+				stream = append(append([]byte{}, want...), gen.BytesN(k).Draw(t, "extra")...)
+				bad = "ct_partial_tail"
+			} else {
+				stream = append([]byte{}, want[:len(want)-k]...)
+				bad = "ct_cut_midblock"
+			}
 		}
 		s2 := &scripted{data: append([]byte{}, stream...), plan: plan2, failAt: -1}
 		var back bytes.Buffer
